@@ -164,6 +164,12 @@ def run(prog, rep, tier, cfg):
     hs = [c for c in H20.calls if (c.defp or '').endswith('Primitives::hash') or (c.defp or '').endswith('::hash')]
     rep.need('K10', 'eam:hash_20', any(has_atom(prog.slicer.operand(H20, a), 'E:SupportedHashes::Keccak256') for c in hs for a in c.args) and
              has_all(prog.slicer.local(H20, 0), ['V:12', 'V:32']), 'hash_20 = keccak256(data)[12..32]', X.loc(H20))
+    # ---- redeploying over an EVM actor: only a dead one (the EAM routes every collision with an EVM actor to Resurrect)
+    RSF = X.fn("interpreter::system::System::<'r, RT>::resurrect", 'fil_actor_evm')
+    X.guard('K6b', 'evm:resurrect-only-dead', RSF, [c.bb for c in RSF.calls if callee_is("interpreter::system::System::<'r, RT>::new")(c)], m_pred('is_dead', [], True), '!is_dead => Err')
+    ID = X.fn('is_dead', 'fil_actor_evm')
+    okd = any(any(callee_is('current_tombstone')(c) for c in g.calls) for g in prog.family(ID)) and any((c.callee or '').endswith('is_some_and') for c in ID.calls)
+    rep.need('K6b', 'evm:is_dead-definition', okd, 'dead = has a tombstone and it is not the current message\'s', X.loc(ID))
     # ---- EVM nonce
     EVM = 'fil_actor_evm'
     CC = X.fn('interpreter::instructions::lifecycle::create_common', EVM)
